@@ -466,6 +466,12 @@ def _fold(ctx, info):
         k, r = divmod(n, K)
         child = Poly.atom(("elem", vkey(P(0)), k))
         rc = row_of(e.args[pp], child)
+        if rc is None:
+            aa = _atom(e.args[pp])
+            if aa is not None and aa[0] == "elem" and len(aa) == 3 and (key_atom(aa[1]) or ("",))[0] == "elem":
+                # the rows of a child iterated directly (`for i, row in enumerate(child)`): which row meets which row of D
+                # is then a fact about two loops this rule does not relate
+                raise AnalysisError("C10/X1: %s hands %s to _compute_log_D_n: a row taken by iterating the child, not by the row index (unrecognised shape)" % (Q, show(e.args[pp])))
         if n == 0:
             ok_rows = _covers(_loop(rc), 0, roots, 0) if rc is not None and _loop(rc) is not None else (False, "the child is not read at the row loop's index (%s)" % show(e.args[pp]))
         if rc is None or (ok_rows[0] is True and ordinal(rc) != r):
@@ -1275,7 +1281,16 @@ def _consumer(ctx, info):
     for col in ("ccf", "clonal_prev"):
         mine, other = names[pos[col]], names[1 - pos[col]]
         sts = [n for n in ast.walk(f.node) if isinstance(n, ast.Assign) and any(isinstance(t, ast.Subscript) and isinstance(t.slice, ast.Constant) and t.slice.value == col for t in n.targets)]
-        srcs = [n for n in sts if not isinstance(n.value, (ast.Constant, ast.UnaryOp))]
+        def sentinel(v):
+            """a literal, or a module-level name bound once to a literal (the value written for mutations in no clone)"""
+            if isinstance(v, (ast.Constant, ast.UnaryOp)):
+                return True
+            if isinstance(v, ast.Name) and not any(isinstance(x, ast.Name) and x.id == v.id and isinstance(x.ctx, ast.Store) for x in ast.walk(f.node)) and v.id not in f.params:
+                defs = [a_.value for a_ in f.module.tree.body if isinstance(a_, ast.Assign) and any(isinstance(t, ast.Name) and t.id == v.id for t in a_.targets)]
+                return len(defs) == 1 and isinstance(defs[0], (ast.Constant, ast.UnaryOp))
+            return False
+
+        srcs = [n for n in sts if not sentinel(n.value)]
         if not srcs:
             raise AnalysisError("C10/X5: %s never fills column %r from a dictionary" % (Q, col))
         for n in srcs:
